@@ -112,6 +112,9 @@ func genWire(t *rapid.T, v reflect.Value, depth int) {
 			v.SetBytes(rapid.SliceOfN(rapid.Byte(), n, n).Draw(t, "opaque"))
 		} else {
 			n := rapid.IntRange(0, 3).Draw(t, "slicelen")
+			if rapid.IntRange(0, 7).Draw(t, "longlist") == 0 {
+				n = pick(t, []int{4, 8, 12, 13, 16, 17, 32, 33, 64, 100, 257}, "slicelen2") // the protocol sets no bound
+			}
 			s := reflect.MakeSlice(v.Type(), n, n)
 			for i := 0; i < n; i++ {
 				genWire(t, s.Index(i), depth+1)
@@ -119,9 +122,19 @@ func genWire(t *rapid.T, v reflect.Value, depth int) {
 			v.Set(s)
 		}
 	case reflect.Ptr: // optional data / linked list
-		if depth < 4 && rapid.IntRange(0, 2).Draw(t, "present") > 0 {
+		// lists are mostly short; now and then (depth marker 100..) a list goes on for a few dozen entries
+		present, next := false, depth+1
+		switch {
+		case depth < 4:
+			present = rapid.IntRange(0, 2).Draw(t, "present") > 0
+		case depth == 4:
+			present, next = rapid.IntRange(0, 7).Draw(t, "golong") == 0, 100
+		case depth >= 100 && depth < 170:
+			present = rapid.IntRange(0, 15).Draw(t, "longer") > 0
+		}
+		if present {
 			p := reflect.New(v.Type().Elem())
-			genWire(t, p.Elem(), depth+1)
+			genWire(t, p.Elem(), next)
 			v.Set(p)
 		} else {
 			v.Set(reflect.Zero(v.Type()))
